@@ -534,6 +534,9 @@ impl MqttShared {
     ) -> Result<pool::Receiver<Ack>, SendPacketError> {
         let mut queues = self.queues.borrow_mut();
         if queues.inflight_ids.contains(&id) {
+            drop(queues);
+            // capacity is not used, let next queued request to proceed
+            self.wake_waiter();
             Err(SendPacketError::PacketIdInUse(id))
         } else {
             let (tx, rx) = self.pool.queue.channel();
@@ -550,10 +553,28 @@ impl MqttShared {
             queues.inflight.pop_back();
             queues.inflight_ids.remove(&id);
         }
+        drop(queues);
+        // capacity is not used, let next queued request to proceed
+        self.wake_waiter();
     }
 
     /// Register ack in response channel
     pub(super) fn wait_publish_response(
+        &self,
+        id: num::NonZeroU16,
+        ack: AckType,
+        pkt: Publish,
+        payload: Option<Bytes>,
+    ) -> Result<pool::Receiver<Ack>, SendPacketError> {
+        let result = self.register_publish(id, ack, pkt, payload);
+        if result.is_err() {
+            // capacity is not used, let next queued request to proceed
+            self.wake_waiter();
+        }
+        result
+    }
+
+    fn register_publish(
         &self,
         id: num::NonZeroU16,
         ack: AckType,
